@@ -48,6 +48,14 @@ impl SwiftField for Field55A {
         }
 
         // Parse BIC code
+        if lines.len() > line_idx + 1 {
+            return Err(ParseError::InvalidFormat {
+                message: format!(
+                    "Field 55A has {} line(s) after the BIC",
+                    lines.len() - line_idx - 1
+                ),
+            });
+        }
         let bic = parse_bic(lines[line_idx])?;
 
         Ok(Field55A {
